@@ -5,5 +5,6 @@ CONSTANTS
   MaxLen = 0
   IdxSlack = 0
   MaxPairs = 0
+  LitSizes = {11, 12, 13, 24, 25, 40}
 INVARIANTS TypeOK Emit200
 CHECK_DEADLOCK FALSE
